@@ -14,6 +14,7 @@ import itertools
 import os
 import random
 import re
+import sys
 import threading
 import time
 
@@ -38,6 +39,7 @@ ASSUMPTIONS = [
 ]
 REQUIRED_COUNTERS = ['timing_cases', 'timeouts_observed', 'own_results_kept', 'slow_exits',
                      'monitor_samples_judged', 'log_handler_waits',
+                     'monitor_kill_cases',
                      'kill_schedules', 'kills_performed', 'bodies_prevented',
                      'bodies_killed', 'kills_without_effect']
 EXHAUSTIVE = {'quick': True, 'thorough': True}
@@ -112,6 +114,12 @@ def enumerated(tier):
   for pos in ('main', 'teardown'):
     for rep in (False, True):
       yield {'k': 'm', 'pos': pos, 'repeat': rep}
+  # the kill that ends a monitor thread lands in a finalizer the thread is
+  # running (the interpreter prints and drops it): the monitored phase still ends
+  for pos in ('plain', 'main', 'teardown'):
+    for ret in ('C', 'F'):
+      for del_ms in (150, 400):
+        yield {'k': 'mk', 'pos': pos, 'ret': ret, 'del_ms': del_ms}
   # the body is waiting for the run's record log handler (another thread of the
   # phase is logging) when its time-out expires
   for pos in ('plain', 'main', 'teardown'):
@@ -969,7 +977,139 @@ def run_logkill(case):
   return {'sig': case, 'violations': viol, 'counters': c}
 
 
+# ------------------------------------------------------------------ (mk)
+def run_monitor_kill_swallowed(case):
+  """A monitored phase whose body returns well before its time-out.  The
+  monitor function drops a resource per sample; its finalizer has some work to
+  do (pure Python) and is running when the phase ends, so the asynchronous
+  exception that is to end the monitor thread is raised inside the finalizer,
+  where the interpreter prints and drops it.  The phase must still end with the
+  body's own result and the following phase must run.  Witness of a violation
+  (logical, not a wall-clock verdict): the body has returned, execute() has
+  not, and the monitor has taken several hundred further samples."""
+  H = pm.htf()
+  from openhtf.core import monitors
+  viol = []
+  c = {'timing_cases': 1, 'timeouts_observed': 0, 'own_results_kept': 0,
+       'monitor_kill_cases': 1}
+  st = {'samples': 0, 'ending': False, 'at_end': None, 'stop': False,
+        'swallowed_in_finalizer': 0}
+  in_long = threading.Event()
+  log = pm.EventLog()
+
+  class Resource:
+
+    def __init__(self, busy_s):
+      self.busy_s = busy_s
+
+    def __del__(self):
+      if self.busy_s:
+        in_long.set()
+      t_end = time.monotonic() + self.busy_s
+      try:
+        while time.monotonic() < t_end:
+          pass
+      except BaseException:  # pylint: disable=broad-except
+        st['swallowed_in_finalizer'] += 1
+        raise      # printed and dropped by the interpreter, as for any finalizer
+
+  def probe():
+    if st['stop']:
+      raise RuntimeError('harness: end of the case')
+    st['samples'] += 1
+    busy = 0.0
+    if st['ending'] and not in_long.is_set():
+      busy = case['del_ms'] / 1000.0
+    Resource(busy)          # dropped at once: finalized on this (the monitor) thread
+    return st['samples']
+
+  ret = {'C': None, 'F': H.PhaseResult.FAIL_AND_CONTINUE}[case['ret']]
+
+  @H.PhaseOptions(timeout_s=100)
+  @monitors.monitors('temperature', probe, poll_interval_ms=2)
+  def soak(test):
+    log.add('start', 'soak', 0)
+    t_end = time.monotonic() + 5
+    while st['samples'] < 3 and time.monotonic() < t_end:
+      time.sleep(0.001)
+    st['ending'] = True
+    in_long.wait(5)          # the monitor thread is inside the slow finalizer
+    st['at_end'] = st['samples']
+    log.add('end', 'soak', 0)
+    return ret
+
+  def after(test):
+    log.add('start', 'after', 0)
+
+  pos = case['pos']
+  if pos == 'plain':
+    nodes = [soak, after]
+  elif pos == 'main':
+    nodes = [H.PhaseGroup(main=[soak], teardown=[after])]
+  else:
+    nodes = [H.PhaseGroup(main=[after], teardown=[soak])]
+  t = H.Test(*nodes)
+  recs = []
+  t.add_output_callbacks(recs.append)
+  old_hook = threading.excepthook
+  threading.excepthook = lambda a: None
+  old_unraisable = sys.unraisablehook
+  sys.unraisablehook = lambda a: None
+  done = {}
+
+  def runner():
+    try:
+      done['ret'] = t.execute()
+    except BaseException as e:  # pylint: disable=broad-except
+      done['exc'] = repr(e)
+
+  th = threading.Thread(target=runner, name='vf-runner', daemon=True)
+  survived = None
+  try:
+    th.start()
+    t_end = time.monotonic() + 40          # watchdog only
+    while th.is_alive() and time.monotonic() < t_end:
+      if st['at_end'] is not None and st['samples'] - st['at_end'] > 400:
+        survived = st['samples'] - st['at_end']
+        break
+      time.sleep(0.005)
+    if th.is_alive():
+      st['stop'] = True            # the probe raises: the monitor thread ends
+      th.join(30)
+  finally:
+    threading.excepthook = old_hook
+    sys.unraisablehook = old_unraisable
+    st['stop'] = True
+    if not th.is_alive():
+      pm.prune_handlers()
+  ctx = {'case': {k: case.get(k) for k in ('pos', 'ret', 'del_ms')},
+         'kill_swallowed_in_finalizer': st['swallowed_in_finalizer']}
+  c['kills_swallowed_in_finalizer'] = st['swallowed_in_finalizer']
+  if survived is not None:
+    viol.append({'mechanism': 'monitor-thread-survived-the-end-of-its-phase',
+                 'detail': dict(ctx, samples_after_body_returned=survived)})
+    return {'sig': case, 'violations': viol, 'counters': c}
+  if th.is_alive() or not recs:
+    viol.append({'mechanism': 'executor-did-not-proceed-within-bound',
+                 'detail': dict(ctx, done=done)})
+    return {'sig': case, 'violations': viol, 'counters': c}
+  rec = recs[0]
+  ph = [p for p in rec.phases if p.name == 'soak']
+  want = {'C': ('PASS', 'CONTINUE'), 'F': ('FAIL', 'FAIL_AND_CONTINUE')}[case['ret']]
+  got = [(p.outcome.name, pm.res_name(p.result)) for p in ph]
+  if got == [want]:
+    c['own_results_kept'] = 1
+  else:
+    viol.append({'mechanism': 'early-body-reported-timeout' if got and got[0][1] == 'TIMEOUT'
+                 else 'own-result-not-kept', 'detail': dict(ctx, got=got, want=want)})
+  if not any(e[2] == 'start' and e[3] == 'after' for e in log.events):
+    viol.append({'mechanism': 'following-phase-not-run', 'detail': ctx})
+  return {'sig': case, 'violations': viol, 'counters': c}
+
+
 def run_case(case):
+  if case['k'] == 'mk':
+    return run_monitor_kill_swallowed(case)
   if case['k'] == 'l':
     return run_logkill(case)
   if case['k'] == 'm':
